@@ -256,7 +256,7 @@ def run_case(rng, idx, tier, lane, ctx):
             native = NativeCounter()
             native.install()
         try:
-            ref = compare(m, spec, rng, counters, bad, n_points=1 if cython else 3, fd=not cython)
+            ref = compare(m, spec, rng, counters, bad, n_points=1 if cython else 4, fd=not cython)
         finally:
             if native:
                 native.remove()
